@@ -205,9 +205,11 @@ func verifHarnessC17Backup() {
 	s := &Server{db: new(db.DB), backupBucket: "bucket"}
 	verifBackup.genCalls, verifBackup.waits = 0, 0
 	verifBackup.curGen = 1
+	verifBackup.mustUpload, verifBackup.attempts, verifBackup.lastGoodGen, verifBackup.readGen = false, 0, 0, 0
 	verifBackup.uploads, verifBackup.uploadGen, verifBackup.files = nil, nil, nil
 	verifBackup.readers = map[*bytes.Reader][]byte{}
 	verifBackupClock, verifBackupUploadTimes = 0, nil
+	verifBackupDecided, verifBackupCancelNow = false, false
 	ctx := &verifBackupCtx{}
 	var _ context.Context = ctx
 
@@ -215,6 +217,7 @@ func verifHarnessC17Backup() {
 
 	// the task returned: only because the context was cancelled
 	assert("terminates-only-on-cancellation", ctx.done)
+	assert("pending-change-triggers-upload-attempt", implies(verifBackup.mustUpload, verifBackup.attempts > 0))
 	// every upload is a byte-exact copy of one whole file read
 	for i, up := range verifBackup.uploads {
 		exact := false
@@ -224,7 +227,6 @@ func verifHarnessC17Backup() {
 		assert("upload-is-whole-file-read", exact)
 		if i > 0 {
 			assert("at-most-one-upload-per-minute", verifBackupUploadTimes[i]-verifBackupUploadTimes[i-1] >= 60)
-			assert("upload-only-after-a-write", verifBackup.uploadGen[i] != verifBackup.uploadGen[i-1])
 		}
 	}
 	if verifBackup.genCalls >= 1 && ghostCount("s3.put.call") == 0 && ghostCount("readfile.failed") == 0 {
